@@ -688,6 +688,7 @@ static void m_exec(const plan_t *p)
 static void m_gen(prng_t *r, int mode, plan_t *p)
 {
     p->cfg[CF_FAR] = FAR_OF_INDEX();      /* element blocks 2^32 or 3 * 2^31 bytes apart in one run in seven each */
+    p->cfg[CF_REUSE] = REUSE_OF_INDEX();  /* one run in six: the allocator hands a freed block out again at once */
     int longrun = mode != 16 && prng_chance(r, 1, 10), small = !longrun && prng_chance(r, 1, 5);
     int nops = longrun ? 300 + (int)prng_below(r, 1500) : small ? 2 + (int)prng_below(r, 8) : 10 + (int)prng_below(r, 70);
     unsigned w_clear = mode == 15 ? 10 : 2;
